@@ -570,8 +570,8 @@ class SessionRec:
             if "pt" in e:
                 raw = ev["pt"]
                 e["pt"] = [rk(x, raw[x]) for x in range(d)]
-                if self.tree is not None:
-                    rb = self.tree.meta[1][3]
+                rb = self.tree.meta[1][3] if self.tree is not None else (extra_boxes[0] if extra_boxes else None)
+                if rb is not None and len(rb) == d:
                     rel = []
                     for x in range(d):
                         w = rb[x][1] - rb[x][0]
